@@ -129,6 +129,33 @@ fn named_cases() -> Vec<&'static str> {
     ]
 }
 
+/// definitions and queries that the property requires to be *rejected* (with an error, not a crash)
+fn must_reject() -> Vec<&'static str> {
+    vec![
+        "CREATE TABLE x(line = '([a-z', line[1] => a INT);",
+        "CREATE TABLE x(line = '(a)', other = '([0-9]+', line[1] => a INT);",
+        "CREATE TABLE x(other = '*', line = '(a)', line[1] => a INT);",
+        "CREATE TABLE x('([0-9]+' => a INT);",
+        "CREATE TABLE x(line = split '(', line[1] => a INT);",
+        "CREATE TABLE x(line = '(a)', line[1] => a INT); CREATE TABLE y(l = '[', l[0] => b TEXT);",
+        "CREATE TABLE x({ } => a INT);",
+        "CREATE TABLE x({ .a } => a INT, { } => b TEXT);",
+        "CREATE TABLE x(line = '(a)', line[99999999999999999999] => a INT);",
+        "CREATE TABLE x({ [99999999999999999999] } => a INT);",
+        "CREATE TABLE x({ .a } => a NOSUCHTYPE);",
+        "SELECT string_agg(x) FROM t",
+        "SELECT percentile(x) FROM t",
+        "SELECT count(a, b) FROM t",
+        "SELECT sum() FROM t",
+        "SELECT sum(a, b, c) FROM t",
+        "SELECT max(a, b) FROM t",
+        "SELECT percentile(x, 0.5, 1) FROM t",
+        "SELECT k, COUNT(*) FROM t GROUP BY k HAVING string_agg(x) = 'a'",
+        "SELECT x FROM t LIMIT 99999999999999999999",
+        "SELECT 99999999999999999999 FROM t",
+    ]
+}
+
 fn nested(kind: usize, depth: usize) -> String {
     match kind {
         0 => format!("SELECT {}1{} FROM t", "(".repeat(depth), ")".repeat(depth)),
@@ -311,6 +338,23 @@ pub fn run(ctx: &Ctx) -> i32 {
         record(&col, t, "named", i as u64, true);
     }
     col.layer("e-named", named_cases().len() as u64, true, json!({}));
+    for (i, t) in must_reject().iter().enumerate() {
+        col.eval(1);
+        col.nontrivial(h64(&("reject", t)));
+        match observe(t) {
+            Ok(ParseObs::Ok) => col.fail(fail(
+                format!("accepted-invalid:{}", if t.contains("CREATE") { if t.contains("{ }") { "empty-json-path" } else if t.contains("999999") { "number-out-of-range" } else if t.contains("NOSUCHTYPE") { "unknown-type" } else { "invalid-regex" } } else if t.contains("9999") { "number-out-of-range" } else { "aggregate-arity" }),
+                format!("{:?} is accepted although the definition / query is invalid (it must be rejected with an error)", t),
+                json!({"layer": "must-reject", "text": t}),
+                json!("error"),
+                json!("accepted"),
+                i as u64,
+            )),
+            Ok(_) => {}
+            Err(p) => col.fail(fail(panic_signature(&p), format!("parsing {:?} panicked: {}", t, p.msg), json!({"layer": "must-reject", "text": t}), json!("error"), json!(p.msg), i as u64)),
+        }
+    }
+    col.layer("e2-must-reject", must_reject().len() as u64, true, json!({}));
     col.sample(json!({"layer": "named", "text": "CREATE TABLE x({ } => a INT);"}));
     // (f) nesting up to the documented bound, in child processes with a 2 MiB stack
     let mut n_f = 0;
@@ -326,10 +370,13 @@ pub fn run(ctx: &Ctx) -> i32 {
     }
     col.layer("f-nesting", n_f, true, json!({"documented_depth_bound": 64, "stack": "2 MiB", "kinds": 8}));
     // (g) long flat texts
-    let sizes: Vec<usize> = ctx.tier.pick(vec![100, 1000, 10_000], vec![100, 1000, 10_000, 100_000]);
+    let sizes: Vec<usize> = ctx.tier.pick(vec![100, 1000, 10_000, 100_000], vec![100, 1000, 10_000, 100_000, 300_000]);
     let mut n_g = 0;
     for kind in 0..9 {
         for n in &sizes {
+            if kind <= 1 && *n > 100_000 {
+                continue; // operator chains overflow from 10^4 terms on (known findings K-C14-1..4); larger sizes add nothing
+            }
             for f in child_case("flat", kind, *n) {
                 col.fail(f);
             }
@@ -353,6 +400,14 @@ pub fn run(ctx: &Ctx) -> i32 {
 }
 
 pub fn replay(case: &J) -> Vec<Failure> {
+    if case["layer"].as_str() == Some("must-reject") {
+        let t = case["text"].as_str().unwrap_or("");
+        return match observe(t) {
+            Ok(ParseObs::Ok) => vec![fail("accepted-invalid:replay".into(), format!("{:?} is accepted", t), case.clone(), json!("error"), json!("accepted"), 0)],
+            Ok(_) => vec![],
+            Err(p) => vec![fail(panic_signature(&p), p.msg.clone(), case.clone(), json!("error"), json!(p.msg), 0)],
+        };
+    }
     if case["layer"].as_str() == Some("child") {
         return child_case(case["mode"].as_str().unwrap(), case["kind"].as_u64().unwrap() as usize, case["n"].as_u64().unwrap() as usize);
     }
